@@ -1,7 +1,9 @@
 (** C01 — property theorems: statements (as printed by Coq) closed by [exact]. *)
-From Coq Require Import ZArith List Bool.
-From Flocq Require Import IEEE754.BinarySingleNaN.
-From KV Require Import Base.IEEE C01.Model C01.ProofsOut.
+From Coq Require Import ZArith List Bool Reals.
+From Flocq Require Import Core IEEE754.BinarySingleNaN.
+From KV Require Import Base.IEEE Base.Outcome C01.Model C01.ProofsOut C01.ProofsNan C01.ProofsSteps
+     C01.ProofsRender C01.ProofsLoops C01.ProofsBridge C01.ProofsImports.
+From KV Require C02.Model C04.StaticSound C05.Model C08.Model C08.Props.
 Import ListNotations.
 
 Theorem clamp_of_non_nan_is_finite_unit :
@@ -56,3 +58,167 @@ Theorem render_chunks_at_most_b :
   forall (A : Type) (b : nat) (l : list A) (fuel : nat),
        Forall (fun c : list A => length c <= b) (chunks fuel b l).
 Proof. exact @chunks_bounded. Qed.
+
+(** * The step list of one callback: heap effect, on_start_processing, chunk lengths *)
+(** the model's annotation: no audio-thread step allocates or frees; [on_start_processing] runs once;
+    the mixer is asked for exactly C02's chunk lengths *)
+Theorem callback_allocates_and_frees_nothing :
+  forall b frames : nat,
+    heap_allocs (callback_steps b frames) = 0 /\ heap_frees (callback_steps b frames) = 0 /\
+    starts_of (callback_steps b frames) = 1 /\
+    mixer_lengths (callback_steps b frames) = C02.Model.chunk_sizes b frames.
+Proof. exact callback_steps_spec. Qed.
+
+Theorem callback_chunks_cover_the_buffer :
+  forall b frames : nat,
+    1 <= b -> Forall (fun m => 1 <= m <= b) (chunk_lengths b frames) /\ list_sum (chunk_lengths b frames) = frames.
+Proof. exact chunk_lengths_spec. Qed.
+
+(** on top of C02's renderer (any sounds, effects, tree, control behaviour): when its output stage is
+    this property's [out_stage], the device buffer of a callback is [render] of the bus that C02's
+    signal-flow specification yields — chunking, temp buffers and the per-chunk clearing included *)
+Theorem device_buffer_is_out_stage_of_specified_bus :
+  forall (O : C02.Model.ops) (fr : C02.Model.tF O -> f32 * f32) (smp : C02.Model.tO O -> f32)
+         (ch b n : nat) (res : C02.Model.tI O) (sx : C02.Model.smixer O),
+    1 <= b -> NoDup (map fst (C02.Model.sx_sends O sx)) ->
+    (forall f, map smp (C02.Model.o_out O ch f) = out_stage ch (fst (fr f)) (snd (fr f))) ->
+    map smp (snd (C02.Model.run_chunks O ch (C02.Model.conc_renderer O b res sx) (C02.Model.chunk_sizes b n)))
+    = render ch b (map fr (spec_bus O (res, sx) (C02.Model.chunk_sizes b n))).
+Proof. exact device_buffer_is_render. Qed.
+
+(** * loops_terminate: the carry loops in binary64 *)
+(** `while x >= 1.0 { x -= 1.0; .. }` for a finite 0 <= x <= 2^53: exactly floor(x) iterations, every
+    subtraction exact, the fractional part is left *)
+Theorem loops_terminate_carry_b64 :
+  forall (x : f64) (fuel : nat),
+    is_finite x = true -> (0 <= B2R x <= IZR (2 ^ 53))%R -> Z.to_nat (Zfloor (B2R x)) <= fuel ->
+    exists r, sub1_loop fuel x = Ok (Z.to_nat (Zfloor (B2R x)), r) /\ is_finite r = true /\
+              B2R r = (B2R x - IZR (Zfloor (B2R x)))%R /\ (0 <= B2R r < 1)%R.
+Proof. exact sub1_loop_floor. Qed.
+(** F8 / F7: from 2^55 on, and for +inf, x - 1 = x and no fuel suffices *)
+Theorem loops_terminate_carry_refuted_b64 :
+  forall x : f64, carry_diverges x -> forall fuel : nat, sub1_loop fuel x = Hang.
+Proof. exact sub1_loop_diverges. Qed.
+Theorem loops_carry_subtraction_stuck_b64 :
+  forall x : f64, is_finite x = true -> (IZR (2 ^ 55) <= B2R x)%R -> sub64 x one64 = x.
+Proof. exact sub1_stuck. Qed.
+(** between 2^53 and 2^55 ties decide (witnesses on both sides) *)
+Theorem loops_carry_border_b64 :
+  bits_of_f64 (sub64 (f64_2p53_plus 0) one64) = bits_of_f64 (Z64 (2 ^ 53 - 1)) /\
+  bits_of_f64 (sub64 (f64_2p53_plus 2) one64) = bits_of_f64 (f64_2p53_plus 0) /\
+  bits_of_f64 (sub64 (f64_2p53_plus 4) one64) = bits_of_f64 (f64_2p53_plus 4) /\
+  bits_of_f64 (sub64 (Z64 (2 ^ 54)) one64) = bits_of_f64 (Z64 (2 ^ 54)).
+Proof. exact border_witnesses. Qed.
+(** a value below 1, and NaN: no iteration *)
+Theorem loops_carry_no_iteration_b64 :
+  forall (x : f64) (fuel : nat), le64 one64 x = false -> sub1_loop fuel x = Ok (0, x).
+Proof. exact sub1_loop_none. Qed.
+
+(** the clock's tick loop (C05's model, binary64 instance) *)
+Theorem loops_terminate_clock_ticks_b64 :
+  forall (x : f64) (fuel : nat) (tk : Z),
+    is_finite x = true -> (0 <= B2R x <= IZR (2 ^ 53))%R -> Z.to_nat (Zfloor (B2R x)) <= fuel ->
+    (tk + Zfloor (B2R x) <= u64_max)%Z ->
+    exists r, C05.Model.tick_loop (T := f64) fuel tk x = Ok ((tk + Zfloor (B2R x))%Z, r) /\ is_finite r = true /\
+              B2R r = (B2R x - IZR (Zfloor (B2R x)))%R /\ (0 <= B2R r < 1)%R.
+Proof. exact tick_loop_floor. Qed.
+Theorem loops_clock_ticks_refuted_b64 :
+  forall x : f64, carry_diverges x ->
+    forall (fuel : nat) (tk : Z), is_ok (C05.Model.tick_loop (T := f64) fuel tk x) = false.
+Proof. exact tick_loop_diverges_b64. Qed.
+
+(** the static sound's carry loop (C04's model, binary64 instance): it never returns once the
+    fractional position is in the divergence class, and whenever it returns it went through the
+    scalar loop's values *)
+Theorem loops_static_sound_carry_refuted_b64 :
+  forall (A : Type) (azero : A) (fuel fl : nat) (s : C04.StaticSound.ssound f64 A),
+    carry_diverges (C04.StaticSound.s_fpos s) -> is_ok (C04.StaticSound.carry A azero fuel fl s) = false.
+Proof. exact carry_diverges_b64. Qed.
+Theorem loops_static_sound_carry_is_scalar_loop :
+  forall (A : Type) (azero : A) (fuel fl : nat) (s s' : C04.StaticSound.ssound f64 A),
+    C04.StaticSound.carry A azero fuel fl s = Ok s' ->
+    exists n, sub1_loop fl (C04.StaticSound.s_fpos s) = Ok (n, C04.StaticSound.s_fpos s').
+Proof. exact carry_ok_count. Qed.
+
+(** * no_nan_stage: where a NaN can be born in the gain stages (binary32) *)
+(** one product: NaN exactly for a NaN factor or inf * 0; one sum: NaN factor or inf - inf *)
+Theorem no_nan_product_exact_b32 :
+  forall x y : f32, is_nan (mul32 x y) = is_nan x || is_nan y || inf_times_zero x y.
+Proof. exact mul_nan_exact. Qed.
+Theorem no_nan_sum_exact_b32 :
+  forall x y : f32, is_nan (add32 x y) = is_nan x || is_nan y || inf_minus_inf x y.
+Proof. exact add_nan_exact. Qed.
+(** a gain in [0, 1] keeps a finite sample finite and no larger *)
+Theorem attenuation_keeps_finite_b32 :
+  forall x s : f32, is_finite x = true -> in01 s = true ->
+    is_finite (mul32 x s) = true /\ (Rabs (B2R (mul32 x s)) <= Rabs (B2R x))%R.
+Proof. exact mul_attenuates. Qed.
+
+(** volume stage (main / send track, `VolumeControl`): finite sample * finite amplitude is never NaN *)
+Theorem no_nan_stage_volume_b32 :
+  forall x vol : f32, is_finite x = true -> is_finite vol = true -> is_nan (volume_gain x vol) = false.
+Proof. exact volume_gain_no_nan. Qed.
+Theorem no_nan_stage_volume_refuted_b32 :
+  exists x vol : f32, is_finite x = true /\ vol = B754_infinity false /\ is_nan (volume_gain x vol) = true.
+Proof. exact volume_gain_refuted. Qed.
+
+(** sound gain stage `resampler_out * fade_volume * volume` *)
+Theorem no_nan_stage_sound_gain_exact_b32 :
+  forall x fade vol : f32, is_finite x = true -> is_finite fade = true -> is_finite vol = true ->
+    is_nan (sound_gain x fade vol) = is_inf (mul32 x fade) && is_zero vol.
+Proof. exact sound_gain_nan_exact. Qed.
+Theorem no_nan_stage_sound_gain_b32 :
+  forall x fade vol : f32, is_finite x = true -> in01 fade = true -> is_finite vol = true ->
+    is_nan (sound_gain x fade vol) = false.
+Proof. exact sound_gain_no_nan. Qed.
+Theorem no_nan_stage_sound_gain_refuted_b32 :
+  exists x fade vol : f32,
+    is_finite x = true /\ is_finite fade = true /\ is_finite vol = true /\ is_nan (sound_gain x fade vol) = true.
+Proof. exact sound_gain_refuted. Qed.
+
+(** panning *)
+Theorem no_nan_stage_panned_b32 :
+  forall x g : f32, is_finite x = true -> is_finite g = true -> is_nan (panned_side x g) = false.
+Proof. exact panned_side_no_nan. Qed.
+Theorem no_nan_stage_panned_refuted_b32 :
+  exists x g : f32, is_nan x = false /\ in01 g = true /\ is_nan (panned_side x g) = true.
+Proof. exact panned_side_refuted. Qed.
+
+(** sub-track stage `*frame *= volume * fade_volume` *)
+Theorem no_nan_stage_track_gain_exact_b32 :
+  forall x vol fade : f32, is_finite x = true -> is_finite vol = true -> is_finite fade = true ->
+    is_nan (track_gain x vol fade) = is_zero x && is_inf (mul32 vol fade).
+Proof. exact track_gain_nan_exact. Qed.
+Theorem no_nan_stage_track_gain_b32 :
+  forall x vol fade : f32, is_finite x = true -> is_finite vol = true -> in01 fade = true ->
+    is_nan (track_gain x vol fade) = false.
+Proof. exact track_gain_no_nan. Qed.
+Theorem no_nan_stage_track_gain_refuted_b32 :
+  exists x vol fade : f32,
+    is_finite x = true /\ is_finite vol = true /\ is_finite fade = true /\ is_nan (track_gain x vol fade) = true.
+Proof. exact track_gain_refuted. Qed.
+
+(** wet / dry blend of the effects, any non-NaN mix *)
+Theorem no_nan_stage_blend_b32 :
+  forall wet dry mix : f32, is_finite wet = true -> is_finite dry = true -> isnan32 mix = false ->
+    is_nan (blend32 wet dry mix) = false.
+Proof. exact blend_no_nan. Qed.
+Theorem no_nan_stage_blend_refuted_b32 :
+  exists wet dry mix : f32,
+    is_nan wet = false /\ is_finite dry = true /\ in01 mix = true /\ is_nan (blend32 wet dry mix) = true.
+Proof. exact blend_refuted. Qed.
+
+(** * Imported from C08 (resource hand-off, ALL interleavings of the audio thread with the caller's
+    thread, every capacity): nothing is ever destroyed on the audio thread, and no queue push or
+    arena insertion of the audio thread can fail ("unused resource producer is full" is unreachable) *)
+Theorem audio_side_never_frees :
+  forall (cf : C08.Model.cfg) (sched : list C08.Model.label) (s : C08.Model.state),
+    C08.Model.run cf sched (C08.Model.init cf) = Ok s ->
+    (forall p t, In (p, t) (C08.Model.st_destroyed s) -> t = C08.Model.Gameplay) /\
+    (forall l s', C08.Model.thread_of l = C08.Model.Audio -> C08.Model.step cf l s = Ok s' ->
+                  C08.Model.st_destroyed s' = C08.Model.st_destroyed s /\ C08.Model.st_next s' = C08.Model.st_next s).
+Proof. exact never_frees_on_audio. Qed.
+Theorem queues_never_overflow :
+  forall (cf : C08.Model.cfg) (sched : list C08.Model.label),
+    exists s, C08.Model.run cf sched (C08.Model.init cf) = Ok s.
+Proof. exact no_step_panics. Qed.
